@@ -592,11 +592,91 @@ fn exec_in_child(world: &str, prop: &str, case: &Value, scratch: &Path, exe: &Pa
     }
 }
 
-pub fn minimise_found(f: &Found, prop: &str, tier: Tier, scratch: &Path, exe: &Path) -> (Value, Violation, usize, usize) {
+/// What the minimiser hands back: (case, violation, executions, original plan length)
+type Minimised = (Value, Violation, usize, usize);
+
+#[derive(Serialize, Deserialize)]
+struct MinimiseJob {
+    found: Found,
+    prop: String,
+    tier: Tier,
+}
+#[derive(Serialize, Deserialize)]
+struct MinimiseResult {
+    case: Value,
+    violation: Violation,
+    executions: usize,
+    original_len: usize,
+}
+
+/// In-process minimisation (fast). Only ever called inside a child process (`minimise-inproc`):
+/// a candidate plan may abort the process (a panic inside a destructor while unwinding).
+fn minimise_inproc(f: &Found, prop: &str, tier: Tier) -> Minimised {
+    let deadline = Instant::now() + std::time::Duration::from_secs(20);
+    let world = f.world.clone();
+    with_world!(world.as_str(), W => {
+        let case: <W as World>::Case = match serde_json::from_value(f.case.clone()) {
+            Ok(c) => c,
+            Err(_) => return (f.case.clone(), f.violation.clone(), 0, 0),
+        };
+        let orig_len = W::plan_len(&case);
+        let out = minimise::<W>(
+            &case,
+            &f.violation,
+            |cand| {
+                if Instant::now() > deadline {
+                    return None;
+                }
+                let mut ctx = Ctx::new(prop, tier);
+                match std::panic::catch_unwind(std::panic::AssertUnwindSafe(|| run_case::<W>(cand, &mut ctx))) {
+                    Ok(Err(v)) => Some(v),
+                    _ => None,
+                }
+            },
+            2000,
+        );
+        (serde_json::to_value(&out.case).unwrap(), out.violation, out.executions, orig_len)
+    })
+}
+
+/// `ksim minimise-inproc <job.json>`: prints a MinimiseResult as JSON
+pub fn cmd_minimise_inproc(path: &str) -> i32 {
+    install_quiet_panic_hook();
+    let Ok(bytes) = std::fs::read(path) else { return 2 };
+    let Ok(job) = serde_json::from_slice::<MinimiseJob>(&bytes) else { return 2 };
+    let (case, violation, executions, original_len) = minimise_inproc(&job.found, &job.prop, job.tier);
+    println!("{}", serde_json::to_string(&MinimiseResult { case, violation, executions, original_len }).unwrap());
+    0
+}
+
+/// Minimisation with containment: Miri-tier findings through the interpreter, crashes and hangs
+/// with one child process per candidate, everything else in ONE child process that minimises
+/// in-process; if that child dies, fall back to one child per candidate.
+pub fn minimise_found(f: &Found, prop: &str, tier: Tier, scratch: &Path, exe: &Path) -> Minimised {
     let crashy = f.violation.class == "process-crash" || f.violation.class == "process-hang";
     let is_miri = f.world.starts_with("miri:");
-    let max_exec: usize = if is_miri { 24 } else if crashy { 120 } else { 2000 };
-    let deadline = Instant::now() + std::time::Duration::from_secs(if is_miri { 150 } else if crashy { 60 } else { 20 });
+    if !crashy && !is_miri {
+        let job = scratch.join(format!("minimise-job-{}.json", f.run));
+        let ok = std::fs::write(&job, serde_json::to_vec(&MinimiseJob { found: f.clone(), prop: prop.to_string(), tier }).unwrap()).is_ok();
+        if ok {
+            if let Ok(mut child) = Command::new(exe).arg("minimise-inproc").arg(&job).stdin(Stdio::null()).stderr(Stdio::null()).stdout(Stdio::piped()).spawn() {
+                let st = wait_deadline(&mut child, std::time::Duration::from_secs(40));
+                let mut stdout = Vec::new();
+                if let Some(mut o) = child.stdout.take() {
+                    use std::io::Read;
+                    let _ = o.read_to_end(&mut stdout);
+                }
+                if let (Some(st), Ok(r)) = (st, serde_json::from_slice::<MinimiseResult>(&stdout)) {
+                    if st.success() {
+                        return (r.case, r.violation, r.executions, r.original_len);
+                    }
+                }
+            }
+        }
+        // the in-process minimiser died or hung: candidates go through child processes below
+    }
+    let max_exec: usize = if is_miri { 24 } else { 120 };
+    let deadline = Instant::now() + std::time::Duration::from_secs(if is_miri { 150 } else { 60 });
     let world = f.world.clone();
     let bare = world.strip_prefix("miri:").unwrap_or(&world).to_string();
     with_world!(bare.as_str(), W => {
@@ -614,14 +694,8 @@ pub fn minimise_found(f: &Found, prop: &str, tier: Tier, scratch: &Path, exe: &P
                 }
                 if is_miri {
                     crate::miri::exec_in_miri(&world, prop, &serde_json::to_value(cand).ok()?, scratch)
-                } else if crashy {
-                    exec_in_child(&world, prop, &serde_json::to_value(cand).ok()?, scratch, exe)
                 } else {
-                    let mut ctx = Ctx::new(prop, tier);
-                    match std::panic::catch_unwind(std::panic::AssertUnwindSafe(|| run_case::<W>(cand, &mut ctx))) {
-                        Ok(Err(v)) => Some(v),
-                        _ => None,
-                    }
+                    exec_in_child(&world, prop, &serde_json::to_value(cand).ok()?, scratch, exe)
                 }
             },
             max_exec,
